@@ -353,6 +353,14 @@ def open_close_rules(fb, chk):
                         rec = wr[0]['args'][1]
                         kind = rec[3][0][2] if rec[0] == 'agg' and rec[3] and rec[3][0][0] == 'agg' else None
                         good = any(y == p2 for y in psi.walk(wr[0]['args'][0])) and shm_err is not None and kind == kmap_c.get(shm_err)
+                        # every pointer the record hands to the C caller outlives the call: it comes from the error value's own
+                        # `&'static CStr`, never from a string the function built (a CString / String / Vec dropped on return)
+                        owned = sorted({x[2][0].split('::')[-2] + '::' + x[2][0].split('::')[-1] for f_ in (rec[3] if rec[0] == 'agg' else ())
+                                        for x in psi.walk(f_) if x[0] == 't' and x[1] == 'call' and
+                                        any(h_ in x[2][0] for h_ in ('CString', 'string::String', 'vec::Vec', 'boxed::Box', 'format'))})
+                        chk.ob('C17.Y9', 'open:c:error-record-holds-no-pointer-into-a-local', not owned, p.where[2],
+                               'the error record written for the caller %s' % ('holds only values and static pointers' if not owned else
+                               'holds a pointer obtained from %s: the buffer is freed when clockbound_open returns, the caller reads a dangling pointer' % owned))
                     else:
                         good = nullchk      # (no error record asked for)
                 if failed is False and good:
